@@ -337,7 +337,9 @@ pub fn c12(tier: &str, seed: u64, known: &[String]) -> Report {
 pub fn c13(tier: &str, seed: u64, known: &[String]) -> Report {
     let whites = [(Kind::D65, Xyz::from_rgb(Rgb::new(255, 255, 255), Kind::D65)), (Kind::D50, Xyz::from_rgb(Rgb::new(255, 255, 255), Kind::D50)), (Kind::Adobe, Xyz::from_rgb(Rgb::new(255, 255, 255), Kind::Adobe))];
     for_colours(tier, seed, known, |rgb, rep| {
-        let pct = |v: f64| (-1e-9..=100.0 + 1e-9).contains(&v);
+        // exact: Props.C13_rgbmodels.{hsl,hsv,hwb}_range_fp prove [0,100] without slack for every rounding that satisfies the
+        // standard model, so an excess of one ulp is a violation; only the SUM w + b keeps the 1e-9 reading (DESIGN appendix D)
+        let pct = |v: f64| (0.0..=100.0).contains(&v);
         let hue_ok = |h: f64| h.fract() == 0.0 && (0.0..360.0).contains(&h);
         let s = Hsl::from(rgb); rep.check("C13.hsl", hue_ok(s.h) && pct(s.s) && pct(s.l), || format!("{} hsl ({},{},{})", c(rgb), s.h, s.s, s.l));
         let s = Hsv::from(rgb); rep.check("C13.hsv", hue_ok(s.h) && pct(s.s) && pct(s.v), || format!("{} hsv ({},{},{})", c(rgb), s.h, s.s, s.v));
